@@ -518,6 +518,96 @@ def r_bitmap(ctx, rule='R-BITMAP'):
     ctx.floor(rule, 'bucket rewrites', n, 2)
 
 
+# --------------------------------------------------------------------------- R-MERGE / R-PARTITION
+def r_merge(ctx, rule='R-MERGE'):
+    """in the remover, the item set of a split (used for the merge decision, for the merged bucket and as the value
+    returned to the parent) is the union of the survivors of BOTH children"""
+    F = ctx.F
+    n = 0
+    for f in F.lib_fns():
+        if not f.path.startswith('writer::'):
+            continue
+        rec = [c for c in f.calls() if c.callee == f.path]
+        if not rec or not any(c.callee.endswith('sub_assign') for c in f.calls()):
+            continue
+        if not pairing.split_aggregates(f):
+            continue
+        tg = pairing.Tags(F, f, {})
+        ors = [c for c in f.calls() if c.callee.endswith('BitOr::bitor') and len(c.args) == 2]
+        unions = []
+        for c in ors:
+            ta, tb = tg.read_op(c.args[0]), tg.read_op(c.args[1])
+            if {frozenset(ta), frozenset(tb)} == {frozenset({'L'}), frozenset({'R'})}:
+                unions.append(c)
+        n += 1
+        ctx.check(len(unions) >= 1, rule, f.path + '/union', f.loc(), 'the survivors of the left and right child are united (|)',
+                  'in `%s` the item set of a split is not the union of the survivors of its left and right child' % f.path)
+        if not unions:
+            continue
+        u = unions[0]
+        # every success return reached after the union returns it as the subtree's item set; merged buckets store it
+        for b, k, t in paths.ret_assigns(f):
+            if k != 'ok' or b not in f.reachable(u.target):
+                continue
+            tt = strip(dict(t[3])['0'])
+            good = tt[0] == 'tuple' and len(tt[1]) == 2 and _is_exactly(tt[1][1], u.bb)
+            ctx.check(good, rule, '%s/returns-union@L%d' % (f.path, paths.block_line(f, b)), '%s:%d' % (f.span['file'], paths.block_line(f, b)),
+                      'the split arm returns the united item set to its parent',
+                      'in `%s` a split returns to its parent an item set that is not the union of both children (line %d): the parent would merge or keep nodes on wrong counts and items are lost' % (f.path, paths.block_line(f, b)))
+        for c in f.calls():
+            if c.callee == 'parallel::TmpNodes::<DE>::put' and c.bb in f.reachable(u.target):
+                d = paths.agg_fields(c.arg_term(2), 'node::Descendants')
+                if d is not None:
+                    ctx.check(_is_exactly(d['descendants'], u.bb), rule, '%s/merged-bucket' % f.path, c.loc(), 'the merged bucket holds the united item set',
+                              'in `%s` the bucket that replaces a shrunk split does not hold the union of both children' % f.path)
+    ctx.floor(rule, 'removers uniting two children', n, 1)
+
+
+def _is_exactly(t, site):
+    """t is the value produced at call site `site`, up to refs / clones / Cow wrappers (not a phi that merely contains it)"""
+    t0 = strip(t)
+    for _ in range(6):
+        if t0[0] == 'agg' and t0[1].endswith('borrow::Cow') and t0[3]:
+            t0 = strip(t0[3][0][1])
+        elif t0[0] == 'call' and t0[2] and t0[1].endswith(('Clone::clone', '::into_owned', 'Deref::deref', 'ToOwned::to_owned')):
+            t0 = strip(t0[2][0])
+        else:
+            break
+    return t0[0] == 'call' and t0[3] == site
+
+
+def r_partition(ctx, rule='R-PARTITION'):
+    """when items are dispatched to the two sides of a plane, every item goes to exactly one side"""
+    F = ctx.F
+    n = 0
+    for f in F.lib_fns():
+        if not f.path.startswith('writer::'):
+            continue
+        tg = pairing.Tags(F, f, {})
+        by_loop = {}
+        for c, tag, cl in tg.seed_sites:
+            nxt = [x for x in f.calls() if x.callee.endswith('Iterator::next') and paths.mentions_call(c.arg_term(1), x.bb)]
+            if nxt:
+                by_loop.setdefault(nxt[0].bb, (nxt[0], []))[1].append((c, tag))
+        for hb, (nx, sites) in by_loop.items():
+            n += 1
+            tags = {t for c, t in sites}
+            ok_each = loop_every_iteration_any(f, nx, [c.bb for c, t in sites])
+            twice = any(c2.bb in f.reachable(c1.target, avoid=[nx.bb]) for c1, t1 in sites for c2, t2 in sites if c1 is not c2)
+            ctx.check(tags == {'L', 'R'} and ok_each and not twice, rule, '%s/dispatch@L%d' % (f.path, nx.span['line']), nx.loc(),
+                      'every element is sent to exactly one of the two sides',
+                      'in `%s` the dispatch of items to the two sides of a plane (line %d) can skip an item or send it to both sides' % (f.path, nx.span['line']))
+    ctx.floor(rule, 'side-dispatch loops', n, 3)
+
+
+def loop_every_iteration_any(fn, next_call, blocks):
+    start = some_arm(fn, next_call)
+    if start is None:
+        return False
+    goals = [next_call.bb] + [b for b, k, t in paths.ret_assigns(fn) if k in ('ok', 'call', 'other')]
+    return paths.must_pass(fn, start, goals, blocks)
+
+
 # --------------------------------------------------------------------------- R-STALE
 STALE_ALLOWED = {
     "parallel::ImmutableLeafs::<'t, D>::new": 'the batch selector only receives live ids: the updated ids intersected with the live item scan, or bucket contents after the removal phase',
